@@ -1174,8 +1174,11 @@ func extractPathParams(path string, actualPath string) (map[string]string, error
 		actualPathWithoutQuery = actualPath[:idx]
 	}
 
-	pathParts := strings.Split(strings.Trim(path, "/"), "/")
-	actualParts := strings.Split(strings.Trim(actualPathWithoutQuery, "/"), "/")
+	// Split the way the router does (server.splitPath): empty segments do not
+	// count, so a request the router matched (/a//b for /a/:id) binds the same
+	// parameters here instead of failing with a path mismatch.
+	pathParts := pathSegments(strings.TrimSpace(path))
+	actualParts := pathSegments(strings.TrimSpace(actualPathWithoutQuery))
 
 	if len(pathParts) != len(actualParts) {
 		return nil, fmt.Errorf("path mismatch: expected %s, got %s", path, actualPathWithoutQuery)
@@ -1192,6 +1195,18 @@ func extractPathParams(path string, actualPath string) (map[string]string, error
 	}
 
 	return params, nil
+}
+
+// pathSegments returns the non-empty segments of a URL path.
+func pathSegments(path string) []string {
+	parts := strings.Split(path, "/")
+	segments := make([]string, 0, len(parts))
+	for _, part := range parts {
+		if part != "" {
+			segments = append(segments, part)
+		}
+	}
+	return segments
 }
 
 // extractQueryParams is deprecated - use ExtractRawQueryParams and ProcessQueryParams instead.
